@@ -381,7 +381,22 @@ func (g *Gen) FieldFamily(structT types.Type, i int) string {
 }
 
 func (g *Gen) SeqFamily(elemSort string) string {
-	return g.Family("Q_"+sortIdent(elemSort), "(Array Int (Array Int "+elemSort+"))")
+	name := "Q_" + sortIdent(elemSort)
+	if _, ok := g.families[name]; !ok && elemSort != "Val" {
+		// element access through a function symbol, so that triggers contain no arithmetic
+		fn := gatName(elemSort)
+		g.extraDecls = append(g.extraDecls,
+			fmt.Sprintf("(declare-fun %s ((Array Int (Array Int %s)) Slice Int) %s)", fn, elemSort, elemSort),
+			fmt.Sprintf("(assert (forall ((q (Array Int (Array Int %s))) (s Slice) (i Int)) (! (= (%s q s i) (select (select q (sref s)) (+ (soff s) i))) :pattern ((%s q s i)))))", elemSort, fn, fn))
+	}
+	return g.Family(name, "(Array Int (Array Int "+elemSort+"))")
+}
+
+func gatName(elemSort string) string {
+	if elemSort == "Val" {
+		return "gat"
+	}
+	return "gat_" + sortIdent(elemSort)
 }
 
 func (g *Gen) CellFamily(sort string) string {
